@@ -173,6 +173,59 @@ def oracle(ctx, U, LA, D, rng, base):
             if Fc[j, i] != keep_c:
                 ctx.fail('filter_matrix_columns', 'entry (%d,%d): %r, definition %r (theta=%r)' % (j, i, Fc[j, i], keep_c, theta), dict(base, theta=theta))
                 break
+    # rectangular matrices (wide and tall): the same definitions
+    for (r_, c_) in ((max(2, n - 2), n + 2), (n + 2, max(2, n - 2))):
+        Dr = np.array([[rng.choice([0, 0, 1, -1, 0.5, 2, -3.5]) for _ in range(c_)] for _ in range(r_)], dtype=float)
+        Frr = U.filter_matrix_rows(sp.csr_array(Dr), theta).toarray()
+        Fcr = U.filter_matrix_columns(sp.csr_array(Dr), theta).toarray()
+        wr = np.where(np.abs(Dr) >= theta * np.abs(Dr).max(axis=1, keepdims=True), Dr, 0.0)
+        wc = np.where(np.abs(Dr) >= theta * np.abs(Dr).max(axis=0, keepdims=True), Dr, 0.0)
+        cs_ = dict(base, theta=theta, rectangular=Dr.tolist())
+        if Frr.shape != Dr.shape or not np.array_equal(Frr, wr):
+            ctx.fail('filter_matrix_rows/rectangular', '%dx%d matrix: result differs from the definition' % (r_, c_), cs_)
+        if Fcr.shape != Dr.shape or not np.array_equal(Fcr, wc):
+            ctx.fail('filter_matrix_columns/rectangular', '%dx%d matrix: result differs from the definition' % (r_, c_), cs_)
+    # filtering relative to the diagonal entry (in place), with and without lumping; some rows store no diagonal
+    for lump in (False, True):
+        Dd = D.copy()
+        for i in range(n):
+            if rng.random() < 0.3:
+                Dd[i, i] = 0.0
+        th_d = rng.choice([0.3, 0.6, 0.9])
+        Ad_ = sp.csr_array(Dd)
+        U.filter_matrix_rows(Ad_, th_d, diagonal=True, lump=lump)
+        want = Dd.copy()
+        for i in range(n):
+            thr = th_d * abs(Dd[i, i])
+            for j in range(n):
+                if j != i and abs(Dd[i, j]) < thr:
+                    if lump:
+                        want[i, i] += Dd[i, j]
+                    want[i, j] = 0.0
+        if _nn(np.abs(Ad_.toarray() - want).max()) > 1e-14 * (1 + np.abs(want).max()):
+            ctx.fail('filter_matrix_rows/diagonal/lump=%s' % lump, 'result differs from "drop (lump) a_ij with |a_ij| < theta |a_ii|"',
+                     dict(base, theta=th_d, matrix=Dd.tolist()))
+    # scaling vectors of a wider type than the matrix (copy requested: the result has the common type)
+    Di = np.round(D * 2)
+    vi = np.array([rng.choice([0.5, 1.5, -0.25, 2.0]) for _ in range(n)])
+    vc = vi * (1 + 0.5j)
+    for fmt in ('csr', 'csc', 'bsr'):
+        for tag, Am, vv in (('int-matrix/float-vector', sp.csr_array(Di.astype(np.int64)), vi),
+                            ('real-matrix/complex-vector', sp.csr_array(Di), vc),
+                            ('float32-matrix/float64-vector', sp.csr_array(Di.astype(np.float32)), vi / 3.0)):
+            Af = Am.asformat(fmt)
+            if fmt == 'csc' and np.iscomplexobj(vv):
+                continue          # the CSC scaling kernels are instantiated for real data only ("complex where supported")
+            for nm, f, want in (('scale_rows', U.scale_rows, np.diag(vv) @ Di), ('scale_columns', U.scale_columns, Di @ np.diag(vv))):
+                cs_ = dict(base, format=fmt, mixed=tag, v=[complex(t) for t in vv])
+                try:
+                    Bm_ = f(Af, vv, copy=True)
+                except Exception as e:   # noqa
+                    ctx.fail('%s/%s/mixed-types/raises' % (nm, fmt), repr(e), cs_)
+                    continue
+                ctx.count('oracle:mixed-types')
+                if _nn(np.abs(Bm_.toarray() - want).max()) > 1e-12 * (1 + np.abs(want).max()):
+                    ctx.fail('%s/%s/mixed-types' % (nm, fmt), '%s: result differs from the diagonal product' % tag, cs_)
     k = rng.randrange(1, n + 1)
     T = U.truncate_rows(sp.csr_array(D), k).toarray()
     for i in range(n):
